@@ -263,8 +263,16 @@ func c03seq(p *Program, r *Report, rule string) {
 					return false, false
 				}
 			},
+			Inline: p.inlineSet("msgReader.setFrame"),
 			Classify: func(v Valuation, pa *Path) string {
-				set := len(pa.Calls("msgReader.setFrame")) > 0
+				// the new frame is installed: fin, payloadLength and maskKey are stored from the header just read
+				got := map[string]bool{}
+				for _, e := range pa.Events {
+					if e.Kind == "store" && strings.HasPrefix(e.AddrK, "msgReader.") && keyHas(e.Val, "call:Conn.readLoop@") {
+						got[e.AddrK] = true
+					}
+				}
+				set := got["msgReader.fin"] && got["msgReader.payloadLength"] && got["msgReader.maskKey"]
 				if pa.End == "loop" && set {
 					return "NEXT-FRAME"
 				}
